@@ -19,7 +19,7 @@ KINDS = ("key", "token", "edb", "result")
 
 
 def plan(tier, seed):
-    return sse.scheme_shards(tier, per_scheme_quick=2, per_scheme_thorough=3, budget_quick=12, budget_thorough=300)
+    return sse.scheme_shards(tier, per_scheme_quick=2, per_scheme_thorough=3, budget_quick=12, budget_thorough=220)
 
 
 def run_case(scheme, cid, cfg, cls, db, acc, rng):
